@@ -275,42 +275,78 @@ func (cm *CMap) parseBfRange(content string) error {
 	return nil
 }
 
-// parseBfRangeSection parses a single beginbfrange/endbfrange section
+// bfRangeToken is one token of a bfrange section: a hex string (without its
+// angle brackets) or one of the array brackets.
+type bfRangeToken struct {
+	hex     string
+	bracket byte // '[' or ']' when the token is a bracket, 0 for a hex string
+}
+
+// bfRangeTokens splits a bfrange section into hex strings and array brackets.
+// Line breaks and blanks carry no meaning in a CMap, so the section is read as
+// a token stream rather than line by line.
+func bfRangeTokens(section string) []bfRangeToken {
+	var tokens []bfRangeToken
+	i := 0
+	for i < len(section) {
+		switch section[i] {
+		case '<':
+			end := strings.IndexByte(section[i:], '>')
+			if end == -1 {
+				return tokens
+			}
+			tokens = append(tokens, bfRangeToken{hex: section[i+1 : i+end]})
+			i += end + 1
+		case '[', ']':
+			tokens = append(tokens, bfRangeToken{bracket: section[i]})
+			i++
+		default:
+			i++
+		}
+	}
+	return tokens
+}
+
+// parseBfRangeSection parses a single beginbfrange/endbfrange section.
+// Every entry is either <start> <end> <unicode> or
+// <start> <end> [<u1> <u2> ...]; both forms may be mixed freely and laid out
+// on any number of lines.
 func (cm *CMap) parseBfRangeSection(section string) error {
-	// Check for array format first (contains "[")
-	// Array format needs special handling as it can span multiple entries
-	if strings.Contains(section, "[") {
-		return cm.parseBfRangeSectionWithArrays(section)
-	}
+	tokens := bfRangeTokens(section)
 
-	// Simple format: <start> <end> <unicode> triplets
-	// Handle CMaps without newlines by processing all hex strings in groups of 3
-	hexStrings := make([]string, 0)
-	startIdx := 0
-	for {
-		idx := strings.Index(section[startIdx:], "<")
-		if idx == -1 {
-			break
+	i := 0
+	for i+2 < len(tokens) {
+		if tokens[i].bracket != 0 || tokens[i+1].bracket != 0 {
+			i++ // not the start of an entry - resynchronise
+			continue
 		}
-		idx += startIdx
-		endIdx := strings.Index(section[idx:], ">")
-		if endIdx == -1 {
-			break
+		startHex := tokens[i].hex
+		endHex := tokens[i+1].hex
+
+		// Collect the destination: one hex string or an array of them
+		var dstHex string
+		var arrayHex []string
+		isArray := false
+		next := i + 3
+		switch {
+		case tokens[i+2].bracket == '[':
+			isArray = true
+			for next < len(tokens) && tokens[next].bracket == 0 {
+				arrayHex = append(arrayHex, tokens[next].hex)
+				next++
+			}
+			if next < len(tokens) && tokens[next].bracket == ']' {
+				next++
+			}
+		case tokens[i+2].bracket == 0:
+			dstHex = tokens[i+2].hex
+		default:
+			i++
+			continue
 		}
-		endIdx += idx
+		i = next
 
-		hexStr := section[idx+1 : endIdx]
-		hexStrings = append(hexStrings, hexStr)
-		startIdx = endIdx + 1
-	}
-
-	// Process hex strings in groups of 3: (start, end, unicode)
-	for i := 0; i+2 < len(hexStrings); i += 3 {
-		startHex := hexStrings[i]
-		endHex := hexStrings[i+1]
-		dstHex := hexStrings[i+2]
-
-		if startHex == "" || endHex == "" || dstHex == "" {
+		if startHex == "" || endHex == "" {
 			continue
 		}
 
@@ -326,9 +362,31 @@ func (cm *CMap) parseBfRangeSection(section string) error {
 
 		startCode, err1 := parseHexToUint32(startHex)
 		endCode, err2 := parseHexToUint32(endHex)
-		dstUnicode, err3 := parseHexToUint32(dstHex)
+		if err1 != nil || err2 != nil {
+			continue
+		}
 
-		if err1 != nil || err2 != nil || err3 != nil {
+		if isArray {
+			// Map each character code to its Unicode value
+			currentCode := startCode
+			for _, hex := range arrayHex {
+				if hex == "" {
+					continue
+				}
+				unicode, err := hexToUnicode(hex)
+				if err == nil && currentCode <= endCode {
+					cm.charMappings[currentCode] = unicode
+				}
+				currentCode++
+			}
+			continue
+		}
+
+		if dstHex == "" {
+			continue
+		}
+		dstUnicode, err3 := parseHexToUint32(dstHex)
+		if err3 != nil {
 			continue
 		}
 
@@ -341,182 +399,6 @@ func (cm *CMap) parseBfRangeSection(section string) error {
 	}
 
 	return nil
-}
-
-// parseBfRangeSectionWithArrays handles bfrange sections that contain array format entries
-func (cm *CMap) parseBfRangeSectionWithArrays(section string) error {
-	// Split into lines for array handling (arrays may span lines)
-	lines := strings.Split(section, "\n")
-
-	i := 0
-	for i < len(lines) {
-		line := strings.TrimSpace(lines[i])
-		if line == "" {
-			i++
-			continue
-		}
-
-		// Check if this is an array format
-		if strings.Contains(line, "[") {
-			// Array format: <start> <end> [<u1> <u2> ...]
-			// This may span multiple lines
-			fullLine := line
-			for !strings.Contains(fullLine, "]") && i+1 < len(lines) {
-				i++
-				fullLine += " " + strings.TrimSpace(lines[i])
-			}
-			cm.parseBfRangeArray(fullLine)
-			i++
-			continue
-		}
-
-		// Simple format on this line: <start> <end> <unicode>
-		hexStrings := make([]string, 0)
-		startIdx := 0
-		for {
-			idx := strings.Index(line[startIdx:], "<")
-			if idx == -1 {
-				break
-			}
-			idx += startIdx
-			endIdx := strings.Index(line[idx:], ">")
-			if endIdx == -1 {
-				break
-			}
-			endIdx += idx
-
-			hexStr := line[idx+1 : endIdx]
-			hexStrings = append(hexStrings, hexStr)
-			startIdx = endIdx + 1
-		}
-
-		// Process in groups of 3
-		for j := 0; j+2 < len(hexStrings); j += 3 {
-			startHex := hexStrings[j]
-			endHex := hexStrings[j+1]
-			dstHex := hexStrings[j+2]
-
-			if startHex == "" || endHex == "" || dstHex == "" {
-				continue
-			}
-
-			srcHexLen := len(startHex)
-			if srcHexLen%2 != 0 {
-				srcHexLen++
-			}
-			srcByteWidth := srcHexLen / 2
-			if srcByteWidth > cm.actualByteWidth {
-				cm.actualByteWidth = srcByteWidth
-			}
-
-			startCode, err1 := parseHexToUint32(startHex)
-			endCode, err2 := parseHexToUint32(endHex)
-			dstUnicode, err3 := parseHexToUint32(dstHex)
-
-			if err1 != nil || err2 != nil || err3 != nil {
-				continue
-			}
-
-			cm.rangeMappings = append(cm.rangeMappings, CMapRange{
-				StartCode:    startCode,
-				EndCode:      endCode,
-				StartUnicode: dstUnicode,
-			})
-		}
-
-		i++
-	}
-
-	return nil
-}
-
-// parseBfRangeArray parses array format: <start> <end> [<u1> <u2> ...]
-func (cm *CMap) parseBfRangeArray(line string) {
-	// Extract start and end codes
-	// Find hex strings for start/end
-	hexStrings := make([]string, 0)
-	startIdx := 0
-	// Only look before the '['
-	bracketIdx := strings.Index(line, "[")
-	if bracketIdx == -1 {
-		return
-	}
-
-	preBracket := line[:bracketIdx]
-	for {
-		idx := strings.Index(preBracket[startIdx:], "<")
-		if idx == -1 {
-			break
-		}
-		idx += startIdx
-		endIdx := strings.Index(preBracket[idx:], ">")
-		if endIdx == -1 {
-			break
-		}
-		endIdx += idx
-
-		hexStr := preBracket[idx+1 : endIdx]
-		hexStrings = append(hexStrings, hexStr)
-		startIdx = endIdx + 1
-	}
-
-	if len(hexStrings) < 2 {
-		return
-	}
-
-	startHex := hexStrings[0]
-	endHex := hexStrings[1]
-
-	startCode, err1 := parseHexToUint32(startHex)
-	endCode, err2 := parseHexToUint32(endHex)
-
-	if err1 != nil || err2 != nil {
-		return
-	}
-
-	// Extract array content
-	arrayStart := strings.Index(line, "[")
-	arrayEnd := strings.Index(line, "]")
-	if arrayStart == -1 || arrayEnd == -1 {
-		return
-	}
-
-	arrayContent := line[arrayStart+1 : arrayEnd]
-
-	// Parse hex strings in array content
-	arrayHexStrings := make([]string, 0)
-	startIdx = 0
-	for {
-		idx := strings.Index(arrayContent[startIdx:], "<")
-		if idx == -1 {
-			break
-		}
-		idx += startIdx
-		endIdx := strings.Index(arrayContent[idx:], ">")
-		if endIdx == -1 {
-			break
-		}
-		endIdx += idx
-
-		hexStr := arrayContent[idx+1 : endIdx]
-		arrayHexStrings = append(arrayHexStrings, hexStr)
-		startIdx = endIdx + 1
-	}
-
-	// Map each character code to its Unicode value
-	currentCode := startCode
-	for _, hex := range arrayHexStrings {
-		if hex == "" {
-			continue
-		}
-
-		unicode, err := hexToUnicode(hex)
-		if err == nil && currentCode <= endCode {
-			cm.charMappings[currentCode] = unicode
-		}
-
-		currentCode++
-	}
 }
 
 // Lookup looks up a character code and returns the Unicode string
